@@ -389,6 +389,42 @@ fn renderings(c: &mut Ctx) {
                     Err(()) => c.fail("to_rfc3339 panicked", &val_args(&v)),
                 }
             }
+            2 if i % 4 == 0 => {
+                // the `%+` item: `DateTime::format("%+")` is `to_rfc3339()`; on a `NaiveDateTime` (no offset) it is
+                // a formatting error, never a text
+                use std::fmt::Write as _;
+                let r = guard(|| {
+                    let mut s = String::new();
+                    write!(s, "{}", v.dt.format("%+")).map(|_| s)
+                });
+                c.op(&format!("r3.plus {}", val_args(&v)), &match &r {
+                    Ok(Ok(s)) => hex(s.as_bytes()),
+                    Ok(Err(_)) => "err".into(),
+                    Err(()) => "panic".into(),
+                });
+                match (&r, guard(|| v.dt.to_rfc3339())) {
+                    (Ok(Ok(a)), Ok(b)) => {
+                        if *a != b {
+                            c.fail("format(\"%+\") differs from to_rfc3339()", &format!("{} {:?} vs {:?}", val_args(&v), a, b));
+                        }
+                        check_rendering(c, &v, 4, false, a);
+                    }
+                    _ => c.fail("format(\"%+\") of a DateTime<FixedOffset> failed", &val_args(&v)),
+                }
+                let rn = guard(|| {
+                    let mut s = String::new();
+                    write!(s, "{}", v.utc.format("%+")).map(|_| s)
+                });
+                c.op(&format!("r3.plusn {} {} {}", yof(&v.utc.date()), v.utc.time().num_seconds_from_midnight(), v.utc.time().nanosecond()), &match &rn {
+                    Ok(Ok(s)) => hex(s.as_bytes()),
+                    Ok(Err(_)) => "err".into(),
+                    Err(()) => "panic".into(),
+                });
+                if !matches!(rn, Ok(Err(_))) {
+                    c.fail("format(\"%+\") of a NaiveDateTime is not a formatting error", &format!("{:?} -> {:?}", v.utc, rn));
+                }
+                c.count("render:%+");
+            }
             1 => {
                 // write, then parse, both sides
                 let r = guard(|| DateTime::parse_from_rfc3339(&v.dt.to_rfc3339_opts(SFS[sf], z)));
@@ -497,6 +533,12 @@ fn gen_string(c: &mut Ctx, wild: u64) -> String {
 }
 
 const ALPHABET: &[char] = &['0', '1', '2', '4', '5', '6', '9', 'T', 't', ' ', 'Z', 'z', '+', '-', ':', '.', ',', '\u{2212}', 'a', 'é', '\u{3000}', '/', '\t', '\u{a0}', '\u{ff10}', '٣'];
+
+/// characters of every UTF-8 length around the bytes of U+2212 (E2 88 92) and at the ends of each length class
+const BOUNDARY_CHARS: &[char] = &[
+    '\u{2212}', '\u{2213}', '\u{2211}', '\u{2200}', '\u{223f}', '\u{2252}', '\u{2012}', '\u{3212}', '\u{1212}', '\u{e2}', '\u{88}', '\u{92}',
+    '\u{80}', '\u{e9}', '\u{7ff}', '\u{800}', '\u{ffff}', '\u{10000}', '\u{1f600}', '\u{10ffff}', '\u{ff10}', '\u{ff1a}', '\u{ff0d}',
+];
 
 const NEAR_MISSES: &[&str] = &[
     "2015-01-20T17:35:20-08:00", "2015-01-20t17:35:20z", "2015-01-20 17:35:20Z", "2015-01-20T17:35:20.5+00:00",
@@ -631,6 +673,29 @@ fn strings(c: &mut Ctx) {
     // every single edit of a few valid strings of each shape, at every position
     for base in ["2015-01-20T17:35:20-08:00", "1996-12-19t16:39:57.5z", "0000-02-29 23:59:60.123456789\u{2212}23:59", "9999-12-31T00:00:00.000000000001+00:00", "2024-02-29T12:00:00Z"] {
         mutations(c, base, true, 0);
+    }
+    // char boundaries (audit gap G1, theorem reader_consumes_whole_chars): at every position of the base strings a
+    // character of every UTF-8 length is inserted / put in place of the character there - in particular
+    // characters sharing one or two leading bytes with U+2212 (E2 88 92), Latin-1 characters whose code point
+    // equals one of its bytes, and the first / last character of each length - so that every `&s[1..]`,
+    // `&s[2..]`, `&s[len_utf8..]` of the scanner is tried right before, inside and right after a multi-byte
+    // character. A slice off a char boundary is a panic, reported by judge_string.
+    for base in ["2015-01-20T17:35:20-08:00", "1996-12-19t16:39:57.5z", "0000-02-29 23:59:60.123456789\u{2212}23:59", "2024-02-29T12:00:00.123456789012+00:00"] {
+        let cs: Vec<char> = base.chars().collect();
+        for k in 0..=cs.len() {
+            for ch in BOUNDARY_CHARS {
+                let mut t = cs.clone();
+                t.insert(k, *ch);
+                judge_string(c, "boundary:insert", &t.into_iter().collect::<String>());
+                if k < cs.len() {
+                    let mut t = cs.clone();
+                    t[k] = *ch;
+                    judge_string(c, "boundary:replace", &t.iter().collect::<String>());
+                    // the text cut right after the multi-byte character
+                    judge_string(c, "boundary:cut", &t[..=k].iter().collect::<String>());
+                }
+            }
+        }
     }
     // grammar-generated: mostly valid
     for i in 0..c.n(80_000, 700_000) {
